@@ -201,8 +201,86 @@ def s_shared_source(rng, nval):
     return _mk(b.prog, "shared_member_source", rng, nval)
 
 
+def s_compose(rng, nval):
+    """Compositional bundle expressions: anonymous literals and intermediate results as operands, selections as scalar
+    operands / thresholds / gating conditions / literal members, int variables as constants, literal-left and compound
+    conditions, several operations on one bundle."""
+    b = B(rng)
+    b.literal("r", k_const=rng.randint(1, 2), k_in=rng.randint(1, 2), k_comp=0)
+    if rng.random() < 0.5:
+        b.literal("q", k_const=1, k_in=1, k_comp=0)
+    b.prog.append(["int", "kk", ["n", rng.choice([2, 3, 4, -2])]])
+    s_nm, s_t = b.inp()
+    buns = [n for n in b.members]
+
+    def scalar(depth=0):
+        f = rng.choice(["n", "n", "in", "int", "sel", "selexpr"])
+        if f == "n":
+            return ["n", rng.choice([0, 1, -1, 2, 3, 5, 10])]
+        if f == "in":
+            return ["v", s_nm]
+        if f == "int":
+            return ["v", "kk"]
+        bn = rng.choice(buns)
+        if f == "sel" or depth > 0:
+            return ["bs", ["v", bn], rng.choice(b.members[bn])]
+        # a member-preserving operation on bn, so that the selected type is statically a member
+        inner = ["bb", rng.choice(["+", "*", "AND", "-"]), ["v", bn], rng.choice([["n", rng.randint(1, 7)], ["v", "kk"], ["v", s_nm]])]
+        return ["bs", inner, rng.choice(b.members[bn])]
+
+    def anon():
+        k = rng.randint(1, 3)
+        return ["B", [["t", b.types.fresh(), ["n", rng.choice([1, 2, 7, -3, 40])]] for _ in range(k)]]
+
+    def cond():
+        f = rng.choice(["cmp", "cmp", "litleft", "and", "or", "sel"])
+        a = ["v", s_nm]
+        if f == "cmp":
+            return ["c", rng.choice(CMP_OPS), a, ["n", rng.randint(-3, 8)]]
+        if f == "litleft":
+            return ["c", rng.choice(CMP_OPS), ["n", rng.randint(-3, 8)], a]
+        if f == "sel":
+            bn = rng.choice(buns)
+            return ["c", rng.choice(CMP_OPS), ["bs", ["v", bn], rng.choice(b.members[bn])], ["n", rng.randint(-3, 8)]]
+        return ["&&" if f == "and" else "||", ["c", rng.choice(CMP_OPS), a, ["n", rng.randint(-3, 8)]],
+                ["c", rng.choice(CMP_OPS), a, ["n", rng.randint(-3, 8)]]]
+
+    def bexpr(depth=0):
+        f = rng.choice(["var", "var", "anon", "bb", "bb", "bf", "bf", "bg", "lit"] if depth < 2 else ["var", "anon"])
+        if f == "var":
+            return ["v", rng.choice(buns)]
+        if f == "anon":
+            return anon()
+        if f == "bb":
+            op = rng.choice(["+", "-", "*", "/", "%", "AND", "OR", "XOR"])
+            return ["bb", op, bexpr(depth + 1), scalar(depth)]
+        if f == "bf":
+            out = rng.choice(["copy", "copy", ["n", rng.choice([1, 2, -1, 7])], ["v", "kk"]])
+            return ["bf", rng.choice(CMP_OPS), bexpr(depth + 1), scalar(depth), out]
+        if f == "bg":
+            return ["bg", cond(), bexpr(depth + 1)]
+        bn = rng.choice(buns)
+        return ["B", [["bs", ["v", bn], rng.choice(b.members[bn])], ["t", b.types.fresh(), ["n", rng.randint(1, 9)]]]]
+
+    n = rng.randint(1, 3)
+    for i in range(n):
+        e = bexpr(0)
+        if e[0] == "v":
+            e = ["bb", rng.choice(["+", "*"]), e, scalar()]
+        b.prog.append(["bun", "x%d" % i, e])
+        if rng.random() < 0.3:
+            buns.append("x%d" % i)
+            b.members["x%d" % i] = []
+            buns.pop()   # results have data-dependent members: not used for selection
+    if rng.random() < 0.4:
+        bn = rng.choice(buns)
+        b.prog.append(["sig", "y", ["p", ["b", rng.choice(["+", "*"]), ["bs", ["bb", rng.choice(["+", "AND", "*"]), ["v", bn], ["n", rng.randint(1, 5)]], rng.choice(b.members[bn])], scalar(1)], b.types.fresh()]])
+    edges = {s_nm: list(range(-4, 10))}
+    return _mk(b.prog, "composed_expressions", rng, nval, small=True, edges=edges)
+
+
 STRATA = [(s_literal, 3), (s_arith, 6), (s_filter, 5), (s_gate, 3), (s_anyall, 3), (s_select, 2), (s_chain, 4),
-          (s_shared_source, 1)]
+          (s_shared_source, 1), (s_compose, 8)]
 
 
 def gen_cases(tier, seed):
